@@ -325,7 +325,10 @@ def gen_case(ctx, thorough):
             wms[str(i)] = {"type": rng.choice(["Absolute", "Relative"]), "value": rng.choice([0.25, 0.5, 1.0, 2.0]).hex()}
     nonneg = rng.random() < 0.55
     values = [gen_value(rng, s, nonneg) for s in pool]
-    probe = [(unhex(s["lo"]) + (unhex(s["hi"]) - unhex(s["lo"])) * rng.randint(1, 15) / 16.0) for s in pool]
+    for _ in range(20):     # a probe vector inside the limits at which no arithmetic prior divides by zero
+        probe = [(unhex(s["lo"]) + (unhex(s["hi"]) - unhex(s["lo"])) * rng.randint(1, 15) / 16.0) for s in pool]
+        if not C01.has_division_by_zero(prog["root"], probe):
+            break
     r = rng.random()
     c = {"program": prog, "wms": wms, "probe": [v.hex() for v in probe]}
     lenmod = rng.random()
@@ -373,8 +376,10 @@ def gen_case(ctx, thorough):
             else:
                 m.append([i, {"new": gen_new_spec(rng)}])
         c["mode"] = {"k": "replace", "map": m, "foreign": rng.random() < 0.15}
-    else:
+    elif not C01.has_division_by_zero(prog["root"], probe):
         c["mode"] = {"k": "fixed", "vec": [v.hex() for v in probe]}
+    else:
+        c["mode"] = {"k": "means", "a": (0.5).hex(), "r": None, "no_limits": False, "means": vec(values)}
     c["via_result"] = c["mode"]["k"] in ("means", "bounded") and rng.random() < 0.5
     # searches freeze the model while fitting; mapper_from_* explicitly support a frozen model (copy_with_fixed_priors
     # deep-copies the frozen flag and then refuses to modify the copy: a frozen model is immutable by contract, not generated)
